@@ -39,6 +39,21 @@ class HOrdDict:
         return "<ordered dict>"
 
 
+class HKeyMap:
+    """a dict under construction whose keys are member identifiers: has : Key -> Bool, vals : Key -> elem"""
+    def __init__(self, has, vals, elem="Recs"):
+        self.has, self.vals, self.elem = has, vals, elem
+
+    def clone(self):
+        return HKeyMap(self.has, self.vals, self.elem)
+
+    def deep_eq(self, it, other, ha, hb):
+        return AND(self.has == other.has, self.vals == other.vals)
+
+    def to_json(self, run, m, depth):
+        return "<dict keyed by member identifiers>"
+
+
 class HSelMap:
     def __init__(self, t):
         self.t = t
@@ -84,6 +99,11 @@ def _make_symbolic(models, it, reg, ty, name, fresh):
         ctx.fact(z3.ForAll([i, j], z3.Implies(z3.And(0 <= i, i < j, j < n), karr[i] != karr[j])), key=("dkeys", karr.sexpr()))
         mstore(it)
         return run.alloc(HOrdDict(HSeq(karr, z3.IntVal(0), n, "Key"), vals))
+    if ty.startswith("KeyMap["):
+        elem = ty[7:-1]
+        has = run.fresh(z3.ArraySort(key, BOOL), name + "!has")
+        vals = run.fresh(z3.ArraySort(key, ctx.sort(elem)), name + "!vals")
+        return run.alloc(HKeyMap(has, vals, elem))
     if ty == "SelMap":
         srt = ctx.sort("SelMapT")
         t = z3.Const(name, srt) if not fresh else run.fresh(srt, name)
@@ -146,6 +166,12 @@ def sel_apply(it, selmap, keyv, Xv):
 def _setitem(models, it, base, idx, val, node):
     if isinstance(base, Ref):
         o = it.run.obj(base)
+        if isinstance(o, HKeyMap) and isinstance(idx, SOpaque) and idx.sort == "Key":
+            if not (isinstance(val, SOpaque) and val.sort == o.elem):
+                raise Unsupported("value stored under a member identifier is not a %s" % o.elem, node)
+            o.has = z3.Store(o.has, idx.t, z3.BoolVal(True))
+            o.vals = z3.Store(o.vals, idx.t, val.t)
+            return True
         if isinstance(o, HOrdDict) and isinstance(idx, SOpaque) and idx.sort == "Key":
             # building a result dict key by key in iteration order (retraining_recs): only the value map is tracked
             o.vals = z3.Store(o.vals, idx.t, it.elem_term(val, o.elem) if not isinstance(val, SOpaque) else val.t)
@@ -164,6 +190,16 @@ def _len(models, it, v, o, node):
 
 
 HOOKS["len"].append(_len)
+
+
+def _truth(run, v, o):
+    if isinstance(o, HOrdDict):
+        n = z3.simplify(o.keys.hi - o.keys.lo)
+        return n != 0
+    return NotImplemented
+
+
+X.TRUTH_HOOKS.append(_truth)
 
 
 def _method(models, it, target, obj, name, args, kwargs, fr, node):
@@ -393,6 +429,57 @@ def _spec_has_recs(self, e, fr):
     return self.ctx.uf("has_attr_retraining_recs", self.ctx.sort("Det"), BOOL)(d.t)
 
 
+def _km(self, e, fr):
+    v = self.ev(e.args[0], fr)
+    o = self.run.obj(v) if isinstance(v, Ref) else None
+    det, ms, key, arg = sorts(self.ctx)
+    if isinstance(o, HDict) and not o.items:
+        return HKeyMap(z3.K(key, z3.BoolVal(False)), z3.Const("kval_empty", z3.ArraySort(key, self.ctx.sort("Recs"))))
+    if not isinstance(o, HKeyMap):
+        raise Unsupported("expected a dict keyed by member identifiers")
+    return o
+
+
+def _spec_khas(self, e, fr):
+    return _km(self, e, fr).has[self.ev(e.args[1], fr).t]
+
+
+def _spec_kval(self, e, fr):
+    o = _km(self, e, fr)
+    return SOpaque(o.elem, o.vals[self.ev(e.args[1], fr).t])
+
+
+def _kin(ctx):
+    """kin(keys, vals, k, q): q is the identifier of one of the first k members and that member has retraining_recs"""
+    f = getattr(ctx, "_kin_fn", None)
+    if f is None:
+        det, ms, key, arg = sorts(ctx)
+        ka, va = z3.ArraySort(INT, key), z3.ArraySort(key, det)
+        f = z3.RecFunction("kin", ka, va, INT, key, BOOL)
+        a, v, k, q = z3.Const("kin!a", ka), z3.Const("kin!v", va), z3.Int("kin!k"), z3.Const("kin!q", key)
+        has = ctx.uf("has_attr_retraining_recs", det, BOOL)
+        z3.RecAddDefinition(f, [a, v, k, q], z3.If(k <= 0, z3.BoolVal(False),
+                                                    z3.Or(f(a, v, k - 1, q), z3.And(a[k - 1] == q, has(v[a[k - 1]])))))
+        ctx._kin_fn = f
+    return f
+
+
+def _spec_kexact(self, e, fr):
+    """kexact(m, d, k): the keys of m are exactly the identifiers of those of the first k members of d that have
+    retraining_recs (nothing else is in m)"""
+    m = _km(self, e, fr)
+    o = _od(self, e, fr, 1)
+    k = b2i(z(self.ev(e.args[2], fr)))
+    det, ms, key, arg = sorts(self.ctx)
+    q = z3.Const("q!kexact", key)
+    if not z3.is_true(z3.simplify(o.keys.lo == 0)):
+        raise Unsupported("kexact on a dict view with an offset")
+    return z3.ForAll([q], m.has[q] == _kin(self.ctx)(o.keys.arr, o.vals, k, q))
+
+
+X.Interp.spec_khas = _spec_khas
+X.Interp.spec_kval = _spec_kval
+X.Interp.spec_kexact = _spec_kexact
 X.Interp.spec_nmembers = _spec_nmembers
 X.Interp.spec_key = _spec_key
 X.Interp.spec_member = _spec_member
